@@ -825,6 +825,53 @@ def governing_config(ck, rule):
     ck.note("one-operand wrapper builds results with the default configuration (its `config` local is unused) - outside C08's operators")
 
 
+def route_selection(ck, rule):
+    """C07.R8: the exact integer route is the default: both wrappers take the value (float) route only for method == 'repr', a scaled operand, or when
+    no fraction length is imposed (n_frac is None); any other reason sends exact integer operands through binary64."""
+    prog = ck.prog
+    from ..common import path_literals
+    for w in A.wrappers(prog):
+        n = 0
+        seen = set()
+        for pf in fpaths(prog, w):
+            if pf.end != "return":
+                continue
+            names = {dotted(ce.raw.func) for ce in pf.calls if ce.depth == 0}
+            if "repr_func" not in names or "raw_func" in names:
+                continue
+            n += 1
+            def reason(t):
+                if isinstance(t, ast.Attribute) and t.attr == "scaled":
+                    return True
+                if isinstance(t, ast.Compare) and len(t.ops) == 1:
+                    l, op, r = t.left, t.ops[0], t.comparators[0]
+                    if isinstance(op, ast.Eq) and dotted(l) == "method" and const_str(r) == "repr":
+                        return True
+                    if isinstance(op, ast.Is) and isinstance(r, ast.Constant) and r.value is None and ("n_frac" in src(l) or (isinstance(l, ast.Constant) and l.value is None)):
+                        return True
+                return False
+            why = False
+            lits = list(path_literals(pf.guards)) + list(path_literals([(g[2], g[1]) for g in pf.guards if g[2] is not None]))
+            for t, pol in lits:
+                if not pol:
+                    continue
+                alts = t.values if (isinstance(t, ast.BoolOp) and isinstance(t.op, ast.Or)) else [t]
+                if all(reason(a) for a in alts):
+                    why = True
+            if not why:
+                key = tuple((src(g[0])[:50], g[1]) for g in pf.guards[-3:])
+                if key in seen:
+                    continue
+                seen.add(key)
+                ck.bad(rule, w, "the value (float) route is taken only for method='repr', scaled operands or an unspecified fraction length",
+                       "repr route under %s" % [(src(g[0])[:50], g[1]) for g in pf.guards if "repr" in src(g[0]) or "n_frac" in src(g[0]) or "scaled" in src(g[0])], w.node,
+                       "results that need more than 53 bits are rounded (or wrap in int64) although the exact raw kernel exists")
+        if n == 0:
+            ck.bad(rule, w, "%s has a value route" % w.name, "no path calls repr_func", w.node)
+        elif not seen:
+            ck.ok(rule, w, "%s: %d value-route paths, each selected by method == 'repr' / scaled / n_frac is None" % (w.name, n))
+
+
 def template_sizes(ck, rule):
     """C08.R3b: with out_like= (and no out) the template alone decides signedness and sizes: both wrappers call the constructor with
     signed / n_int / n_frac / n_word all None on that path (an operand-derived signedness would override the template's)."""
